@@ -7,7 +7,8 @@ if ! git -C /repo diff --quiet; then echo "/repo has uncommitted changes; refusi
 patch=/verif/seeded/$sid/patch.diff; [ -f /verif/seeded/$sid/patch_ported.diff ] && patch=/verif/seeded/$sid/patch_ported.diff
 git -C /repo apply $patch || git -C /repo apply --3way $patch || { echo "PATCH-DOES-NOT-APPLY seed=$sid"; git -C /repo reset -q --hard HEAD; exit 2; }
 git -C /repo reset -q   # --3way stages its result: keep the fault in the working tree only
-./check $prop --tier $tier; rc=$?
+# evidence/ describes runs against /repo itself: a run against a seeded tree writes elsewhere
+SAMVERIF_EVIDENCE_DIR=/scratch/evidence-seeded ./check $prop --tier $tier; rc=$?
 git -C /repo reset -q --hard HEAD   # undo the fault (working tree and index)
 echo "seed=$sid prop=$prop rc=$rc"
 exit $rc
